@@ -541,6 +541,27 @@ func c17Bezier(args []string) error {
 			}
 		}, spansOf(v.Pts, v.Closed), v.Closed))
 	})
+	// cubics whose middle-parameter point lies exactly on the chord although the span is strongly curved
+	// there (antisymmetric y control values, asymmetric x): the flatness test of the sampler sees a
+	// colinear midpoint; sampled repeatedly because the sampler perturbs its probe with a random source
+	for _, h := range []float64{1, 1.5, 2} {
+		for _, x1 := range []float64{3.0, 3.1, 3.2} {
+			for rep := 0; rep < 12; rep++ {
+				id++
+				v := bezVec{Pts: []bezPt{{0, 0, 0}, {x1, h, 1}, {3.7 - x1, -h, 1}, {3, 0, 0}}}
+				vv := v
+				o := bezObs{Kind: "antisym", V: &vv, Id: id}
+				emit(measureBezier(o, func(b *sdf.Bezier) {
+					for _, p := range v.Pts {
+						bv := b.Add(p.X, p.Y)
+						if p.Mid == 1 {
+							bv.Mid()
+						}
+					}
+				}, spansOf(v.Pts, false), false))
+			}
+		}
+	}
 	// random control polygons and handle specifications
 	rnd := rand.New(rand.NewSource(seed()*15485863 + 171))
 	n := 250
